@@ -174,9 +174,9 @@ func runC03(w *eng.W) {
 		}
 	}
 	// (c) builtins x argument lists
-	argAlpha := []string{"null", "true", "1", "-1", "2.5", "1e6", "1e30", "(0/0)", "'abc'", "''", "'('", "[1,'a']", "['a','b']", "v32", "v41", "[[1]]", "-3", "0", "1e-30000000", "this", "($c = this)"}
+	argAlpha := []string{"null", "true", "1", "-1", "2.5", "1e6", "1e30", "(0/0)", "'abc'", "''", "'('", "[1,'a']", "['a','b']", "v32", "v41", "[[1]]", "-3", "0", "1e-30000000", "this", "($c = this)", "92233720368547758080e999999999", "92233720368547758080e-999999999", "1e-999999999", "'12345678901234567890123e99999999'"}
 	if q {
-		argAlpha = []string{"null", "1", "-1", "1e30", "'abc'", "'('", "[1,'a']", "v41", "(0/0)", "1e-30000000", "($c = this)"}
+		argAlpha = []string{"null", "1", "-1", "1e30", "'abc'", "'('", "[1,'a']", "v41", "(0/0)", "1e-30000000", "($c = this)", "92233720368547758080e999999999", "92233720368547758080e-999999999"}
 	}
 	zd := zooData(V)
 	for _, name := range builtinNames {
@@ -207,9 +207,6 @@ func runC03(w *eng.W) {
 					parts[i] = argAlpha[x]
 				}
 				args := strings.Join(parts, ", ")
-				if q && name == "roundCash" && strings.Contains(args, "1e-30000000") {
-					return // terminates, but the library's remainder needs ~14 s for it: thorough tier only
-				}
 				do("builtin", name+"("+args+")", "zoo")
 				if l > 0 && l <= 2 {
 					do("builtin-spread", name+"("+args+"...)", "zoo")
